@@ -615,7 +615,7 @@ def ruleset_obligations(run, prog, ks, pendings=1, only=None):
                 return False          # one cache per call, created empty inside the call (not a longer-lived one), shared by the rules
             return True
         cases = [Case("outcomes", z3.BoolVal(True), [ev(i) for i in range(k)], OutcomesExp(k), post)]
-        d = check_paths(run, prog, world, oid, body, cases, "ruleset-loop", meta={"rules": k, "pendings_per_await": pendings})
+        d = check_paths(run, prog, world, oid, body, cases, "ruleset-loop", meta={"rules": k, "pendings_per_await": pendings}, max_paths=40000)
         out.append((d, {"k": k}))
     return out
 
@@ -1010,19 +1010,20 @@ def keywords_of(run):
     return set(_re.findall(r'"([^"]+)"', m.group(1))) if m else set()
 
 
-def run_parts(run, parts, only=None, pendings=1, kinds=None, mandatory=True):
+def run_parts(run, parts, only=None, pendings=1, kinds=None, mandatory=True, pendings_heavy=None):
     """Shared driver: dump the MIR of the snapshot, run the requested obligation families, replay counterexamples natively."""
     from .mir.harness import dump_mir
     from . import e3replay
     from .synx import Helper
     prog = dump_mir(run)
     helper = Helper(run)
+    ph = pendings if pendings_heavy is None else pendings_heavy          # families whose path count grows fastest with the schedule bound
     if "dispatcher" in parts:
         _, fns = decide_dispatcher(run, prog, helper, kinds=kinds, only=only, mandatory=mandatory, pendings=pendings)
         crosscheck_operator_functions(run, fns)
     if "ruleset" in parts:
         ks = (0, 1, 2, 3) if run.tier == "quick" else (0, 1, 2, 3, 4)
-        res = ruleset_obligations(run, prog, ks, pendings=pendings, only=only)
+        res = ruleset_obligations(run, prog, ks, pendings=ph, only=only)
         finish_family(run, helper, res, lambda info, cex: ruleset_scenario(info["k"], cex), mandatory)
     if "rulebuilder" in parts:
         res = rulebuilder_obligations(run, prog, run.tier, only=only)
@@ -1039,10 +1040,10 @@ def run_parts(run, parts, only=None, pendings=1, kinds=None, mandatory=True):
         res = path_obligations(run, prog, only=only)
         finish_family(run, helper, res, path_scenario, mandatory)
     if "calling_rules" in parts and (not only or only in "evaluate_value_2_calling_rules"):
-        d = rules_with_calls_obligation(run, prog, 2, pendings=pendings)
+        d = rules_with_calls_obligation(run, prog, 2, pendings=ph)
         finish_family(run, helper, [(d, {"k": 2})], lambda info, cex: rules_with_calls_scenario(info["k"], cex), mandatory)
     if "two_calls" in parts and (not only or only in "cache_two_calls"):
-        d = two_calls_obligation(run, prog, pendings=pendings)
+        d = two_calls_obligation(run, prog, pendings=ph)
         finish_family(run, helper, [(d, {})], lambda info, cex: e3replay.two_calls_build(cex), mandatory)
     if "builder" in parts:
         kw = keywords_of(run)
@@ -1136,7 +1137,7 @@ def rules_with_calls_obligation(run, prog, k=2, pendings=1, oid=None):
         return drive(ex, "{async fn body of ruleset::RuleSet::evaluate_value()}", co)
     cases = [Case("each-rule-as-on-its-own", z3.BoolVal(True), None, StandaloneExp(k))]
     d = check_paths(run, prog, world, oid, body, cases, "ruleset-loop", meta={"rules": k, "pendings_per_await": pendings, "functions": "deterministic"},
-                    solver_timeout_ms=180000)
+                    solver_timeout_ms=180000, max_paths=40000)
     d["format_template_injective_lemma_cvc5"] = lemmas
     return d
 
